@@ -5,6 +5,7 @@ import (
 	"crypto/sha256"
 	"fmt"
 	"go/types"
+	"reflect"
 	"sort"
 	"strings"
 
@@ -73,6 +74,11 @@ func extJSONMarshal(fr *frame, a []Value) Value {
 	// canonical: structurally identical values (same shapes, same terms) marshal to the same bytes, so that
 	// code comparing marshalled forms (string(a) == string(b), hashes of documents) behaves as with real JSON
 	key := p.canonKey(v)
+	return Tuple{p.blobBytes(v, key), Iface{}}
+}
+
+// blobBytes registers (or finds) the snapshot of v and returns its 8-byte blob.
+func (p *Path) blobBytes(v Iface, key string) Slice {
 	if p.blobIndex == nil {
 		p.blobIndex = map[string]int{}
 	}
@@ -84,12 +90,109 @@ func extJSONMarshal(fr *frame, a []Value) Value {
 	}
 	out := make(Slice, 8)
 	for i := 0; i < 4; i++ {
-		out[i] = fr.w.tt.BVC(8, uint64(blobMagic[i]))
+		out[i] = p.w.tt.BVC(8, uint64(blobMagic[i]))
 	}
 	for i := 0; i < 4; i++ {
-		out[4+i] = fr.w.tt.BVC(8, uint64(byte(id>>(8*uint(3-i)))))
+		out[4+i] = p.w.tt.BVC(8, uint64(byte(id>>(8*uint(3-i)))))
 	}
-	return Tuple{out, Iface{}}
+	return out
+}
+
+// structMembers: the blob of a struct (or pointer to one) decoded into map[string]json.RawMessage - the member
+// names follow encoding/json's rules for struct fields (tag name, "-", omitempty; embedded fields and symbolic
+// emptiness are not supported), each value is the blob of the field value. Custom MarshalJSON methods are
+// bypassed, as everywhere in the identity codec.
+func (p *Path) structMembers(src Iface, mt *types.Map) (*Map, bool) {
+	if b, ok := mt.Key().Underlying().(*types.Basic); !ok || b.Kind() != types.String {
+		return nil, false
+	}
+	if sl, ok := mt.Elem().Underlying().(*types.Slice); !ok {
+		return nil, false
+	} else if eb, ok := sl.Elem().Underlying().(*types.Basic); !ok || eb.Kind() != types.Uint8 {
+		return nil, false
+	}
+	T := src.T
+	v := src.V
+	if pt, ok := T.Underlying().(*types.Pointer); ok {
+		pv, _ := v.(*Value)
+		if pv == nil {
+			return nil, false
+		}
+		T, v = pt.Elem(), *pv
+	}
+	st, ok := T.Underlying().(*types.Struct)
+	if !ok {
+		return nil, false
+	}
+	sv, ok := v.(Struct)
+	if !ok {
+		return nil, false
+	}
+	m := newMap(mt.Key())
+	for i := 0; i < st.NumFields(); i++ {
+		f := st.Field(i)
+		if !f.Exported() {
+			continue
+		}
+		if f.Embedded() {
+			return nil, false
+		}
+		name, omitempty := f.Name(), false
+		if tag, ok := reflect.StructTag(st.Tag(i)).Lookup("json"); ok {
+			parts := strings.Split(tag, ",")
+			if parts[0] == "-" && len(parts) == 1 {
+				continue
+			}
+			if parts[0] != "" {
+				name = parts[0]
+			}
+			for _, o := range parts[1:] {
+				omitempty = omitempty || o == "omitempty"
+			}
+		}
+		if omitempty {
+			empty, known := jsonEmpty(sv[i])
+			if !known {
+				return nil, false
+			}
+			if empty {
+				continue
+			}
+		}
+		fv := Iface{T: f.Type(), V: sv[i]}
+		p.mapInsert(m, Str{S: name}, p.blobBytes(fv, p.canonKey(fv)))
+	}
+	return m, true
+}
+
+// jsonEmpty: encoding/json's notion of an empty value (false, 0, nil pointer / interface, empty array, slice,
+// map, string); known=false if it depends on a symbolic value.
+func jsonEmpty(v Value) (empty, known bool) {
+	switch x := v.(type) {
+	case nil:
+		return true, true
+	case *Term:
+		if !x.IsConst() {
+			return false, false
+		}
+		return x.C == 0, true
+	case Str:
+		if x.B != nil {
+			return len(x.B) == 0, true
+		}
+		return len(x.S) == 0, true
+	case *Value:
+		return x == nil, true
+	case Iface:
+		return x.T == nil, true
+	case Slice:
+		return len(x) == 0, true
+	case Array:
+		return len(x) == 0, true
+	case *Map:
+		return x == nil || len(x.live()) == 0, true
+	}
+	return false, true
 }
 
 func (p *Path) blobOf(data Slice) (Iface, bool) {
@@ -157,6 +260,12 @@ func extJSONUnmarshal(fr *frame, a []Value) Value {
 		if _, isI := et.Underlying().(*types.Interface); isI && types.AssignableTo(src.T, et) {
 			store(et, cell, src)
 			break
+		}
+		if mt, isMap := et.Underlying().(*types.Map); isMap {
+			if m, ok := p.structMembers(src, mt); ok {
+				store(et, cell, m)
+				break
+			}
 		}
 		p.unsupported("JSON identity codec: value of type %v unmarshalled into %v", src.T, et)
 	}
